@@ -15,7 +15,7 @@ class C07(InvProp):
 
     def make(self, rng, tier):
         cfg = dict(p_pdd=1.0, steps=(10, 40), hyd_steps=[600, 900, 1800, 3600], p_pump_source=0.0, n_tanks=[(0, 1)], n_valves=[(0, 1)],
-                   p_res_pattern=0.0, p_res2=0.0, nj=(1, 5), p_zero_demand=0.2, p_report_all=0.3, p_dur_off=0.0, p_cv=0.0)
+                   p_res_pattern=0.0, p_res2=0.0, nj=(1, 5), p_zero_demand=0.2, p_report_all=0.3, p_dur_off=0.0, p_cv=0.0, p_multi_demand=0.5, p_first_zero=0.3)
         scn = gen.gen_world(rng, cfg)
         scn['profile'] = 'c07'
         scn['run']['solver_options'] = {'MAXITER': 500}
